@@ -1,6 +1,6 @@
 (* C05 — Wrapping, password-wrapping or sealing a key and undoing it returns the same key; the serialised
    form has the fixed length the format prescribes. *)
-From PV Require Import Bytes Result Oracle Local Paserk PaserkProofs BigEndian.
+From PV Require Import Bytes Result Oracle Local Paserk PaserkProofs BigEndian ToyOracle.
 Local Open Scope list_scope.
 
 (* PIE, all six backends, every nonce the RNG can return *)
@@ -74,3 +74,8 @@ Print Assumptions C05_v2_pke_roundtrip.
 Print Assumptions C05_v4_sodium_pke_roundtrip.
 Print Assumptions C05_v1_pke_roundtrip.
 Print Assumptions C05_v1_pke_minimal_refuted.
+
+(* non-vacuity: the premise [laws O] of the theorems above has a model (ToyOracle.v) *)
+Theorem C05_premises_satisfiable : exists O, laws O.
+Proof. exact laws_satisfiable. Qed.
+Print Assumptions C05_premises_satisfiable.
